@@ -199,7 +199,8 @@ def apply_op(b: Built, op: dict) -> str:
         elif k == 'origin_ref':
             b.objs[op['h']].origin_reference = op['value']
         elif k == 'fhid':
-            b.lfs[op['lf']].file_header.header_id = op['value']      # the header's public attribute, edited afterwards
+            # the header's public attributes, edited afterwards
+            setattr(b.lfs[op['lf']].file_header, op.get('attr', 'header_id'), op['value'])
         elif k == 'sul':
             for key, val in op['kw'].items():
                 setattr(b.df.storage_unit_label, key, val)
